@@ -157,3 +157,35 @@ def clone(n):
     if isinstance(n, list):
         return [clone(x) for x in n]
     return n
+
+
+def deref_self_aliases(fn):
+    """copy of a function in which the locals bound exactly once to a plain attribute of self (`mask = self.feature_mask`), and never
+    re-bound, are replaced by that attribute wherever they are read, provided the function never stores that attribute"""
+    import ast as _ast
+    import copy as _copy
+    binds = {}
+    stores = {}
+    for n in _ast.walk(fn):
+        if isinstance(n, _ast.Name) and isinstance(n.ctx, _ast.Store):
+            stores[n.id] = stores.get(n.id, 0) + 1
+    attr_stores = {a.attr for a in _ast.walk(fn) if isinstance(a, _ast.Attribute) and isinstance(a.ctx, _ast.Store) and isinstance(a.value, _ast.Name) and a.value.id == "self"}
+    for st in _ast.walk(fn):
+        if isinstance(st, _ast.Assign) and len(st.targets) == 1 and isinstance(st.targets[0], _ast.Name) and isinstance(st.value, _ast.Attribute) \
+                and isinstance(st.value.value, _ast.Name) and st.value.value.id == "self" and stores.get(st.targets[0].id) == 1 and st.value.attr not in attr_stores:
+            binds[st.targets[0].id] = st.value
+    if not binds:
+        return fn
+    new = _copy.deepcopy(fn)
+
+    class R(_ast.NodeTransformer):
+        def visit_Name(self, n):
+            if isinstance(n.ctx, _ast.Load) and n.id in binds:
+                return _ast.copy_location(_copy.deepcopy(binds[n.id]), n)
+            return n
+    new = R().visit(new)
+    _ast.fix_missing_locations(new)
+    for node in _ast.walk(new):
+        for ch in _ast.iter_child_nodes(node):
+            ch._parent = node
+    return new
